@@ -598,6 +598,49 @@ def _minmax_ok(kind, ctoks, rmm):
     return False
 
 
+C_BINOPS = {">>": "Shr", "<<": "Shl", "+": "Add", "-": "Sub", "&": "BitAnd", "|": "BitOr", "*": "Mul", "/": "Div", "%": "Rem", "^": "BitXor"}
+
+
+def c_arith(body):
+    """(operator, literal) for every binary operation of a C function body that has an integer literal operand
+    (`x >> 4`, `+ 5`, `& 0xffff`); +-1 and *1 are too common to say anything"""
+    out = set()
+    for m in re.finditer(r"(>>|<<|\+|-|&|\||\*|/|%|\^)\s*\(?\s*(0[xX][0-9a-fA-F]+|\d+)[uUlL]*\b(?!\s*\.)", body):
+        op, v = m.group(1), int(m.group(2), 0)
+        pre = body[max(0, m.start() - 2):m.start()]
+        if op in ("+", "-", "&", "*") and (pre.strip().endswith(("(", ",", "=", "?", ":", "<", ">", "!", "&", "|", "+", "-", "*", "/")) or not pre.strip()):
+            continue        # unary minus / address-of / dereference, not a binary operator
+        if body[m.start():m.start() + 2] in ("&&", "||", "++", "--", "+=", "-=", "&=", "|=", "*=", "/=", "%=", "^=", "->"):
+            continue
+        if v in (0, 1) or (op in ("+", "-") and v <= 1):
+            continue
+        out.add((C_BINOPS[op], v))
+    return sorted(out)
+
+
+def rust_arith(fns):
+    out = set()
+
+    def scan(e):
+        for x in mir.walk(e):
+            if isinstance(x, tuple) and x and x[0] == "bin" and len(x) >= 4:
+                op = str(x[1])
+                for suf in ("WithOverflow", "Unchecked"):
+                    op = op.replace(suf, "")
+                for side in (x[2], x[3]):
+                    sd = mir.strip_casts(side)
+                    if isinstance(sd, tuple) and sd and sd[0] == "c" and isinstance(sd[1], int):
+                        out.add((op, sd[1]))
+    for f in fns:
+        for bi, si, lhs, rv, st in f.assignments():
+            if bi in f.live and isinstance(rv, dict) and rv.get("k") == "bin":
+                try:
+                    scan(f.rvalue_expr(rv))
+                except Exception:
+                    pass
+    return out
+
+
 def rust_callee_names(fns):
     out = set()
     for f in fns:
@@ -745,6 +788,14 @@ def check(ck, P, rule, only=None):
             ck.decide(fld not in root_toks, rule, "%s:no-test:%s" % (cname, fld), "does not test the caller's buffers",
                       "zlib-ng's %s never looks at strm->%s; %s now decides on it: a call that the reference accepts (a stream without "
                       "buffers attached yet) is answered differently" % (cname, fld, ", ".join(f.path.replace(Z, "") for f in fns)), where(fns[0]))
+        rar = None
+        for op, v in table.get("arith", {}).get(key, []):
+            if rar is None:
+                rar = rust_arith(allf)
+            n += 1
+            ck.decide((op, v) in rar, rule, "%s:arith:%s:%d" % (cname, op, v), "operation with that constant still there",
+                      "zlib-ng's %s computes with `%s %d`; %s (with its helpers) no longer does: a shift, mask or offset of the reference "
+                      "has changed" % (cname, op, v, ", ".join(f.path.replace(Z, "") for f in fns)), where(fns[0]))
         rmm = rust_minmax(allf)
         for kind, ctoks in table.get("minmax", {}).get(key, []):
             n += 1
